@@ -283,6 +283,10 @@ def gen_plan(seed, tier="quick", variant=None):
         ops.append({"op": "stop", "on": [what, k], "delay": rng.choice([0.01, 0.03])})
         ops.append({"t": round(1.0 + rng.random(), 6), "op": "start", "start": rng.choice(["latest", "latest", "num"]), "start_rel": 0})
         proc = []
+    if cons["group"] and any(o["op"] == "commit" for o in ops) and rng.random() < 0.5:
+        # the application reacting to the result of a commit() from inside that Deferred's callback
+        for _ in range(rng.choice([1, 1, 2])):
+            ops.append({"op": rng.choice(["stop", "stop", "commit", "commit", "shutdown"]), "on": ["commit_result", rng.randint(0, 2)]})
     t_faults_end = round(max([horizon * 2.2] + [f["t"] for f in faults if "t" in f] + [o["t"] for o in ops if "t" in o]) + 0.01, 6)
     plan = {"family": FAMILY, "seed": seed, "tier": tier, "cfg": cfg, "log": log, "ops": ops, "proc": proc, "faults": faults,
             "t_faults_end": t_faults_end}
@@ -441,11 +445,11 @@ def _run(w, plan):
     proc_spec = {}
     for p in plan["proc"]:
         proc_spec.setdefault(p["n"], p)
-    triggers = {"proc": {}, "fetch": {}, "commit": {}}
+    triggers = {"proc": {}, "fetch": {}, "commit": {}, "commit_result": {}}
     for o in plan["ops"]:
         if "on" in o:
             triggers[o["on"][0]].setdefault((o["on"][1],) + tuple(o["on"][2:]), []).append(o)
-    counters = {"fetch": 0, "commit": 0}
+    counters = {"fetch": 0, "commit": 0, "commit_result": 0}
 
     def on_request(entry):
         if entry["key"] == kwire.FETCH:
@@ -755,7 +759,15 @@ def _run(w, plan):
             sim.record("op", "commit", inc.n)
             sim.mark("op", "commit")
             d = c.commit()
-            cw = watch(d, "commit#%d.%d" % (inc.n, len(inc.commit_ws)), sim, keep_failure=True)
+            j = counters["commit_result"]
+            counters["commit_result"] += 1
+
+            def on_commit_result(_w, j=j):
+                for o2 in triggers["commit_result"].pop((j,), ()):
+                    res.probe("op_from_inside_a_commit_callback_" + o2["op"])
+                    do_op(o2)
+
+            cw = watch(d, "commit#%d.%d" % (inc.n, len(inc.commit_ws)), sim, on_fire=on_commit_result, keep_failure=True)
             cw.lpo = c.last_processed_offset
             inc.commit_ws.append(cw)
         elif kind == "kill":
